@@ -91,6 +91,9 @@ func c15IsEval(cs *core.Case) (bool, string, string) {
 		}
 	}
 	got := nd.Ptr.Is(s)
+	if ok, why := c15TableIntact(); !ok {
+		return false, "C15/caller-alias-table-modified", fmt.Sprintf("after %s(%s).Is(%q): %s", nd.Name, nd.Ext, s, why)
+	}
 	if got != want {
 		return false, fmt.Sprintf("C15/Is/%v-expected-%v/case%d-ws%d%d-param%d", got, want, cs.Ints[1], cs.Ints[2], cs.Ints[3], cs.Ints[4]),
 			fmt.Sprintf("format %s(%s) aliases %v: Is(%q) = %v, expected %v (normalised argument %q)", nd.Name, nd.Ext, nd.Aliases, s, got, want, nn)
@@ -184,6 +187,18 @@ func c15ResEval(cs *core.Case) (bool, string, string) {
 // kind "c15lookup": Strs[0] = registered name or alias
 func c15LookupEval(cs *core.Case) (bool, string, string) {
 	c15Register()
+	// exercise the helpers on every extension first (replay starts from a
+	// fresh process): none of them may touch the caller's alias table
+	for _, e := range c15Extensions {
+		if f := mimetype.Lookup(e.name); f != nil {
+			f.Is(e.name)
+			f.Is("x/other")
+			mimetype.EqualsAny(e.name, f.String())
+		}
+	}
+	if ok, why := c15TableIntact(); !ok {
+		return false, "C15/caller-alias-table-modified", why
+	}
 	n := cs.Strs[0]
 	l := mimetype.Lookup(n)
 	if l == nil {
@@ -212,7 +227,7 @@ var c15Extensions = []struct {
 }{
 	{"", "x/c15-root", ".c15a", []string{"x/c15-root-alias1", "x/c15-root-alias2"}},
 	{"text/plain", "x/c15-text", ".c15b", []string{"x/c15-text-alias"}},
-	{"application/zip", "x/c15-zip", ".c15c", nil},
+	{"application/zip", "x/c15-zip", ".c15c", []string{"x/c15-zip-alias"}},
 }
 
 var c15Registered bool
@@ -223,13 +238,38 @@ func c15Register() {
 	}
 	c15Registered = true
 	never := func([]byte, uint32) bool { return false }
+	// the alias arguments are adjacent sub-slices of ONE caller-owned array with
+	// spare capacity (a registry table): whatever writes past the end of one
+	// format's aliases lands in the next format's aliases
+	c15AliasTable = c15AliasTable[:0]
 	for _, e := range c15Extensions {
+		c15AliasTable = append(c15AliasTable, e.aliases...)
+	}
+	c15AliasTable = append(c15AliasTable, "<spare-0>", "<spare-1>")
+	c15AliasSnapshot = append([]string{}, c15AliasTable...)
+	at := 0
+	for _, e := range c15Extensions {
+		arg := c15AliasTable[at : at+len(e.aliases)] // cap reaches to the end of the table
+		at += len(e.aliases)
 		if e.parent == "" {
-			mimetype.Extend(never, e.name, e.ext, e.aliases...)
+			mimetype.Extend(never, e.name, e.ext, arg...)
 		} else {
-			mimetype.Lookup(e.parent).Extend(never, e.name, e.ext, e.aliases...)
+			mimetype.Lookup(e.parent).Extend(never, e.name, e.ext, arg...)
 		}
 	}
+}
+
+var c15AliasTable, c15AliasSnapshot []string
+
+// c15TableIntact reports whether the caller-owned alias table still reads as
+// it did when the extensions were registered.
+func c15TableIntact() (bool, string) {
+	for i := range c15AliasSnapshot {
+		if c15AliasTable[i] != c15AliasSnapshot[i] {
+			return false, fmt.Sprintf("slot %d of the caller's alias table read %q at registration and reads %q now", i, c15AliasSnapshot[i], c15AliasTable[i])
+		}
+	}
+	return true, ""
 }
 
 func c15NodeList() []mimetype.VerifNode {
